@@ -15,6 +15,7 @@ import (
 type Spine struct {
 	Len, Cap int
 	Ptr      uintptr
+	p        unsafe.Pointer
 }
 
 // concrete walks through embedding wrappers (derived types embedding the interface) to the *list / *object.
@@ -48,7 +49,7 @@ func List(l interface{}) (s Spine, ok bool) {
 	if !f.IsValid() || f.Kind() != reflect.Slice {
 		return s, false
 	}
-	return Spine{f.Len(), f.Cap(), f.Pointer()}, true
+	return Spine{f.Len(), f.Cap(), f.Pointer(), f.UnsafePointer()}, true
 }
 
 // SlotWords returns the raw words of all cap slots of the spine (each slot is a 2-word
@@ -64,11 +65,11 @@ func SlotWords(l interface{}) (words []uintptr, ok bool) {
 	if !ok {
 		return nil, false
 	}
-	if s.Cap == 0 || s.Ptr == 0 {
+	if s.Cap == 0 || s.p == nil {
 		return nil, true
 	}
 	n := s.Cap * 2
-	src := unsafe.Slice((*uintptr)(unsafe.Pointer(s.Ptr)), n)
+	src := unsafe.Slice((*uintptr)(s.p), n)
 	words = make([]uintptr, n)
 	copy(words, src)
 	return words, true
